@@ -46,17 +46,42 @@ func TestC13(t *testing.T) {
 		cl.labelIf(!nonEmpty, "state:empty")
 		cl.labelIf(c.exact, "variant:exact")
 		cl.labelIf(!c.exact, "variant:plain")
+		nearEqual := false
 		before := u.fullObs(u.s, u.k, c)
 		unchanged := func(what string) {
 			if dd := obs.DiffSketch(u.fullObs(u.s, u.k, c), before, u.diffOpts()); dd != "" {
 				t.Fatalf("C13 %s: %s changed the sketch: %s", c, what, dd)
 			}
+			if nearEqual {
+				return
+			}
 			if msg := u.invariant(); msg != "" {
 				t.Fatalf("C13 %s: after %s: %s", c, what, msg)
 			}
 		}
-		mx := c.m.MaxIndexableValue()
-		mn := c.m.MinIndexableValue()
+		// One time in four the sketch then decode-merges a stream whose mapping is Equal to its own without being
+		// bit-identical (base off by a few 1e-13): accepted, and from then on the sketch's own mapping - the one it
+		// reports - is what decides which values are trackable. (The bin-level invariant is not re-checked after
+		// that: the model indexes with the original mapping.)
+		if rapid.IntRange(0, 3).Draw(t, "nearequalmapping") == 0 {
+			g0, o0 := gen.GammaOf(c.m)
+			k := rapid.SampledFrom([]float64{1, -1, 3, -3, 4, -4}).Draw(t, "nearequalk")
+			if nm, err := (gen.MapSpec{Kind: gen.KindOf(c.m), Gamma: g0 * (1 + k*1e-13), Offset: o0}).Build(); err == nil && c.m.Equals(nm) && nm.Equals(c.m) {
+				carrier := ddsketch.NewDDSketch(nm, store.NewSparseStore(), store.NewSparseStore())
+				var cb []byte
+				carrier.Encode(&cb, false)
+				if err := u.s.DecodeAndMergeWith(cb); err != nil {
+					t.Fatalf("C13 %s: DecodeAndMergeWith of an empty sketch whose mapping is Equal (base*(1%+.0e)) refused: %v", c, k*1e-13, err)
+				}
+				nearEqual = true
+				cl.label("near-equal-mapping-decoded")
+				cl.logf("decode-merged an empty sketch with base*(1%+.0e)", k*1e-13)
+				before = u.fullObs(u.s, u.k, c)
+			}
+		}
+		cur := u.s.Inner().IndexMapping
+		mx := cur.MaxIndexableValue()
+		mn := cur.MinIndexableValue()
 		nontrivial := false
 		call := rapid.SampledFrom([]string{"add", "add", "add", "quantile", "quantile", "batch", "merge", "reweight", "constructors"}).Draw(t, "call")
 		cl.label("call:" + call)
